@@ -128,7 +128,7 @@ pub fn gen_side(r: &mut Prng, p: &Prof) -> SidePlan {
     SidePlan { w: gen_wops(r, p), r: gen_rops(r, p), hold: r.chance(p.hold, 1000) }
 }
 pub fn gen_stream(r: &mut Prng, p: &Prof) -> StreamPlan {
-    StreamPlan { opener: r.below(2), port: r.next() as u16, pad: if r.chance(1, 8) { r.below(200) } else { r.below(8) }, delay: r.below(6), after: None, after_abort: None, raw_host: None, sides: [gen_side(r, p), gen_side(r, p)] }
+    StreamPlan { opener: r.below(2), port: r.next() as u16, pad: if r.chance(1, 8) { r.below(200) } else { r.below(8) }, delay: r.below(6), after: None, after_abort: None, after_let_go: None, raw_host: None, sides: [gen_side(r, p), gen_side(r, p)] }
 }
 pub fn gen_dgtx(r: &mut Prng, from: usize, max_items: usize, min_len: usize) -> DgTx {
     let n = r.below(max_items + 1);
@@ -156,5 +156,8 @@ pub fn base_plan(r: &mut Prng) -> Plan {
     p.eps = [gen_ep(r), gen_ep(r)];
     p.link = gen_link(r);
     p.weights = gen_weights(r);
+    // one run in six: the connection tasks feel tokio's cooperative budget (spurious Pending from
+    // channel and timer operations after 128 of them in one turn of the outer future)
+    p.coop = r.chance(1, 6);
     p
 }
